@@ -77,6 +77,9 @@ var patterns = []string{
 
 var gasValues = []string{"0", "1", "30000000", "60000000", "18446744073709551615", "36000000"}
 var graceValues = []string{"0", "1", "500", "1000", "2500", "86400000", "9223372036854"}
+
+// milliseconds that do not fit time.Duration: must be refused
+var graceOverflow = []string{"9223372036855", "18446744073709", "18446744073710", "9223372036854775807"}
 var minValues = []string{"0", "0.1", "0.5", "1", "0.2", "0.4", "123.456", "0.123456789012345678", "0.00000000000000001",
 	"0.000000000000000001", "0.0000000000000000001", "1e-18", "1E2", "5000000", "0.10", "00.5", "1.000000000000000001",
 	"0.99999999999999999", "340282366920938463463374607431768211456"}
@@ -356,6 +359,10 @@ func (g *gctx) malformV2(doc map[string]any) string {
 		target["grace"] = "-5"
 		return "grace-negative"
 	case 5:
+		if r.Bool() {
+			target["grace"] = graceOverflow[r.Intn(len(graceOverflow))]
+			return "grace-overflow"
+		}
 		target["grace"] = "1.5"
 		return "grace-fraction"
 	case 6:
@@ -444,6 +451,10 @@ func (g *gctx) malformV1(doc map[string]any) string {
 		def["gas_limit"] = "x"
 		return "v1-gas-text"
 	default:
+		if r.Bool() {
+			def["builder"] = map[string]any{"enabled": false, "grace": graceOverflow[r.Intn(len(graceOverflow))]}
+			return "v1-grace-overflow"
+		}
 		def["builder"] = map[string]any{"enabled": false, "grace": "-1"}
 		return "v1-grace-negative"
 	}
